@@ -125,7 +125,7 @@ func genC18(dir, tier string, seed int64) {
 	cw.close()
 
 	// ---- unknown operator types through the REAL registry ----
-	unk := goOnlyResult{Stream: "C18_unknown_operator", Rule: "real graphs x -> Abs -> <type> -> Abs through opset13.GetOperator (the node of that type at each of the three positions on the path to the output, on a side branch whose result is never read -- first or last in the node list -- and as a node without outputs; as a node whose output name is already bound by an initializer, by a tensor the caller passes, or by an earlier node): for every unregistered type string (case/affix perturbations of registered names, ONNX operators that are not implemented, odd strings) Run must fail with errors.Is(err, ops.ErrUnsupportedOperator) and return no outputs; the same graph with a registered unary type must succeed", Violations: []string{}}
+	unk := goOnlyResult{Stream: "C18_unknown_operator", Rule: "real graphs x -> Abs -> <type> -> Abs through opset13.GetOperator (the node of that type at each of the three positions on the path to the output, on a side branch whose result is never read -- first or last in the node list -- and as a node without outputs; as a node whose output name is already bound by an initializer, by a tensor the caller passes, or by an earlier node): the node carrying no domain, ai.onnx, ai.onnx.ml or com.microsoft in turn; for every unregistered type string (case/affix perturbations of registered names, ONNX operators that are not implemented, odd strings) Run must fail with errors.Is(err, ops.ErrUnsupportedOperator) and return no outputs; the same graph with a registered unary type must succeed", Violations: []string{}}
 	names := []string{"abs", "ABS", "Abs ", " Abs", "Abs1", "Ab", "ai.onnx.Abs", "", "Pad", "Gelu", "MaxPool", "Identity", "Exp", "Neg", "LeakyRelu", "Erf", "Softplus", "relu", "Relu6", "Tanhh", "nil", "13", "Sigmoid\x00", "Cosine"}
 	for _, tname := range append(names, "Relu", "Tanh", "Sigmoid") {
 		for pos := 0; pos < 9; pos++ {
@@ -164,6 +164,13 @@ func genC18(dir, tier string, seed int64) {
 				g.Node = []*onnx.NodeProto{g.Node[0], g.Node[1], {OpType: tname, Input: []string{"a"}, Output: []string{"b"}}, g.Node[2]}
 			}
 			extra := pos == 7
+			// the node of that type carries a domain: none, the default one spelled out, the ML domain, a vendor's
+			dom := []string{"", "ai.onnx", "ai.onnx.ml", "com.microsoft"}[unk.N%4]
+			for _, nd := range g.Node {
+				if nd.OpType == tname {
+					nd.Domain = dom
+				}
+			}
 			b, _ := proto.Marshal(&onnx.ModelProto{OpsetImport: []*onnx.OperatorSetIdProto{{Version: 13}}, Graph: g})
 			func() {
 				defer func() {
